@@ -313,7 +313,8 @@ def find_shallow(
         result = parents.get(sha, None)
         if not result:
             # Try to use commit graph first if available
-            if commit_graph:
+            # A stale graph may still list commits that were pruned since
+            if commit_graph and sha in store:
                 graph_parents = commit_graph.get_parents(sha)
                 if graph_parents is not None:
                     result = graph_parents
@@ -397,7 +398,8 @@ def get_depth(
 
         # Try to use commit graph for parent lookup if available
         parents = None
-        if commit_graph:
+        # A stale graph may still list commits that were pruned since
+        if commit_graph and e in store:
             parents = commit_graph.get_parents(e)
 
         if parents is None:
@@ -3883,7 +3885,8 @@ def _collect_ancestors(
 
             # Try to use commit graph for parent lookup
             parents = None
-            if commit_graph:
+            # A stale graph may still list commits that were pruned since
+            if commit_graph and e in store:
                 parents = commit_graph.get_parents(e)
 
             if parents is None:
